@@ -289,6 +289,10 @@ def full_units(n, m, letters, nanobs, target, tag):
 def units(tier, seed):
     x = EXTRA[seed % len(EXTRA)]
     us = []
+    # size boundary cases first (they are the longest single calls: O(n^2) kernel loop)
+    for n in ([46341, 5000, 300] if tier == "quick" else [65536, 46341, 46340, 5000, 300]):
+        for m in ((1,) if (tier == "quick" and n > 40000) else (1, 2)):
+            us.append({"kind": "bign", "n": n, "m": m})
     target = 4000 if tier == "quick" else 24000
     for n, m in shapes(2, 9):
         us += full_units(n, m, [0.0, 1.0, 2.0], True, target, "base")
@@ -369,9 +373,54 @@ def run_dev(unit, ctx):
         check_case(ctx, obs, ens)
 
 
+def check_bign(ctx, n, m):
+    """size-boundary cases (n*n crosses 2**31 at n = 46341) with a closed-form reference:
+    obs alternate 0/1, every ensemble is {0.5} (m=1) or {0, 1} (m=2)"""
+    from fractions import Fraction
+    obs = np.arange(n, dtype=np.float64) % 2
+    ens = np.full((n, 1), 0.5) if m == 1 else np.tile(np.array([0.0, 1.0]), (n, 1))
+    case = {"kind": "bign", "n": n, "m": m}
+    from hydrodiy.stat import metrics
+    try:
+        d, table = metrics.crps(obs, ens)
+    except Exception as e:
+        ctx.case(True)
+        ctx.violation("crps:large-n:raised", case, "crps raised %r for n=%d" % (e, n))
+        return
+    got = {k: float(d[k]) for k in COMPS}
+    ctx.case(True, outcome=repr(sorted(got.items())))
+    k1 = n // 2
+    exp_crps = Fraction(1, 2) if m == 1 else Fraction(1, 4)
+    exp_unc = Fraction(k1 * (n - k1), n * n)
+    names = list(COMPS)
+    # the kernel accumulates ~n^2 terms in float64: observed noise 8e-9 relative at n = 46341; tolerance 100x that
+    tol = 1e-6
+
+    def g(name):
+        for k in names:
+            if k.lower().startswith(name):
+                return got[k]
+        raise KeyError(name)
+    crps, reli, pot, unc, reso = g("crps"), g("reli"), g("pot"), g("unc"), g("reso")
+    if abs(crps - float(exp_crps)) > tol:
+        ctx.violation("crps:large-n:value", case, "crps %r, definition gives %r (n=%d)" % (crps, float(exp_crps), n), observed=crps, expected=float(exp_crps))
+    if abs(unc - float(exp_unc)) > tol:
+        ctx.violation("crps:large-n:uncertainty", case, "uncertainty %r, CRPS of the observed climatology is %r (n=%d)" % (unc, float(exp_unc), n), observed=unc, expected=float(exp_unc))
+    if abs(crps - (reli + pot)) > tol:
+        ctx.violation("crps:large-n:crps=reli+pot", case, "crps %r != reliability %r + potential %r" % (crps, reli, pot))
+    if abs(reso - (unc - pot)) > tol:
+        ctx.violation("crps:large-n:reso=unc-pot", case, "resolution %r != uncertainty %r - potential %r" % (reso, unc, pot))
+    for nm, v in (("reliability", reli), ("potential", pot), ("uncertainty", unc)):
+        if not (v >= -1e-12):
+            ctx.violation("crps:large-n:negative:%s" % nm, case, "%s = %r < 0 (n=%d)" % (nm, v, n))
+
+
 def run_unit(unit, ctx):
     if unit["kind"] == "full":
         run_full(unit, ctx)
+    elif unit["kind"] == "bign":
+        ctx.case(False, n=0, sample={"kind": "bign", "n": unit["n"], "m": unit["m"]})
+        check_bign(ctx, unit["n"], unit["m"])
     else:
         run_dev(unit, ctx)
 
@@ -380,6 +429,9 @@ def replay(case):
     from mc.explore import Result
     ctx = Result()
     _CACHE.clear()
+    if case.get("kind") == "bign":
+        check_bign(ctx, case["n"], case["m"])
+        return [v for lst in ctx.violations.values() for v in lst]
     obs = [NAN if v is None else float(v) for v in case["obs"]]
     ens = [[float(v) for v in row] for row in case["ens"]]
     check_case(ctx, obs, ens)
